@@ -210,7 +210,7 @@ func judgeHistory(h *history) (found bool) {
 			defer cwg.Done()
 			checkSem <- struct{}{}
 			t0 := time.Now()
-			verdicts[i] = checkKey(parts[k], checkerTimeout)
+			verdicts[i] = checkKey(parts[k], checkerTimeout, os.Getenv("C11_PORCUPINE_ONLY") != "")
 			us := time.Since(t0).Microseconds()
 			<-checkSem
 			rep.Count("checker_cpu_ms_total", us/1000)
@@ -252,6 +252,8 @@ func judgeHistory(h *history) (found bool) {
 			rep.Count("violating_partitions", 1)
 		}
 		switch {
+		case v.Result == "disagree":
+			rep.Inconclusive("oracle disagreement (harness bug): a validated witness linearisation exists but porcupine says illegal; history %s #%d key %d", d.Workload, d.N, k)
 		case v.Class != "" && v.Result == "ok":
 			rep.Inconclusive("oracle disagreement (harness bug): direct check says %s, porcupine says ok; history %s #%d key %d", v.Class, d.Workload, d.N, k)
 		case v.Class != "":
@@ -601,7 +603,7 @@ func main() {
 	if rep.Get("sweeper_emptied_store_after_history") == 0 {
 		rep.Inconclusive("the expiry sweeper was never observed to remove entries")
 	}
-	if rep.Get("porcupine_ok")+rep.Get("porcupine_illegal") == 0 {
+	if rep.Get("porcupine_ok")+rep.Get("porcupine_illegal")+rep.Get("porcupine_ok-certified-and-porcupine") == 0 {
 		rep.Inconclusive("no partition was decided by the checker")
 	}
 	stopProf()
